@@ -13,7 +13,7 @@ from __future__ import annotations
 import datetime
 import html
 
-from mc import core, crawl, mpd, mpdrules, world as W
+from mc import core, crawl, history, mpd, mpdrules, world as W
 from mc.explorer import deviation_vectors
 
 ID = 'C05'
@@ -273,7 +273,29 @@ def plan(tier):
     return items
 
 
+def history_alphabet(tier):
+    """Manifest requests for the differential history oracle (mc/history.py): every template x mode with default options,
+    and every single option deviation on hand_made (live)."""
+    out = []
+    now = CLOCKS[0]
+    for template in TEMPLATES:
+        for mode in MODES:
+            out.append((f'{template}|{mode}|default', crawl.manifest_url(mode, 'bbb', template, {}), now, True))
+    for name, vals in ALPHABET.items():
+        for v in vals:
+            if v is None:
+                continue
+            if tier == 'quick' and v != [x for x in vals if x is not None][0]:
+                continue
+            out.append((f'hand_made|live|{name}={v}', crawl.manifest_url('live', 'bbb', 'hand_made', {name: v}), now, True))
+    return out
+
+
 def run(ctx):
+    # histories first: these workers only fork, so that every pair starts from a process that has served nothing
+    alpha = history_alphabet(ctx.tier)
+    ctx.merge_all(ctx.pmap(history.pair_item, [('C05', a, alpha) for a in range(len(alpha))]))
+    ctx.extra.update(history_alphabet=[a[0] for a in alpha], history_pairs=len(alpha) * (len(alpha) - 1))
     items = plan(ctx.tier)
     ctx.merge_all(ctx.pmap(_dispatch, items, chunksize=2))
     ctx.extra.update(work_items=len(items), vectors=len(vectors(ctx.tier)), alphabet=ALPHABET,
@@ -286,6 +308,9 @@ def run(ctx):
 def replay(record):
     acc = core.Acc()
     w = W.World.shared()
+    if record.get('kind') == 'history-pair':
+        a = history.run_forked(history.pair_item, ('C05', 0, [tuple(record['a']), tuple(record['b'])]))
+        return [(s, v[0]['what']) for s, v in a.viol.items()]
     if record.get('kind') == 'hostile':
         a = hostile_item((record['position'], record['template'], record['mode']))
         return [(s, v[0]['what']) for s, v in a.viol.items()]
